@@ -7,9 +7,10 @@ E2: depth-bounded exhaustive enumeration of operation histories on a real
                  fresh object (fresh StringIO file, fixed clock).  The twin replays only
                  what can influence its later output (the log events: LogRender remembers
                  the last time stamp) plus the judged event; the reference model of the
-                 prefix is carried along from the run that judged the prefix.  Histories of
-                 length <= 2 and every 64th one are additionally replayed in full lock-step
-                 and must give the same state and verdicts (machinery self-check).
+                 prefix is carried along from the run that judged the prefix.  This only
+                 accelerates the passing case: whatever it reports, every history of length
+                 <= 2 and every 64th one are replayed in full lock-step (twin executes the
+                 whole history) and the lock-step verdict is the one reported.
     events     = print(7 text/style combinations) | log | rule(2) | line(1|2) | bell |
                  clear | show_cursor(F|T) | control("") | capture enter | capture exit |
                  export_text(clear=True, styles F|T) | export_html(clear=True, inline F|T)
@@ -498,13 +499,18 @@ def _check(cfg, hist, res, model=None, counted=True):
     res.evaluations += 1
     res.count("transitions", 1 if hist and counted else 0)
     res.count("events_executed_including_replays", len(hist))
-    if model is not None and (len(hist) <= 2 or res.evaluations % 64 == 0):
-        # self-check of the fast path: full lock-step replay must give the same state and verdicts
+    if model is not None and (run.problems or len(hist) <= 2 or res.evaluations % 64 == 0):
+        # The fast path only accelerates the passing case.  Anything it reports, all short
+        # histories and every 64th one are replayed in full lock-step (the twin executes the
+        # whole history); the lock-step verdict is the one that counts.
         run2, canon2 = run_history(cfg, hist, None)
-        res.count("fast_path_selfchecks")
-        if canon2 != canon or run2.model() != run.model() or \
-                [k for k, _ in run2.problems] != [k for k, _ in run.problems]:
-            raise AssertionError("fast-forward and lock-step replay disagree on %r %r" % (cfg, hist))
+        res.count("lockstep_reruns")
+        k1, k2 = [k for k, _ in run.problems], [k for k, _ in run2.problems]
+        if k1 != k2:
+            res.count("fast_path_verdict_differs")
+        elif not k1 and (canon2 != canon or run2.model() != run.model()):
+            raise AssertionError("fast-forward and lock-step replay reach different states on %r %r" % (cfg, hist))
+        run, canon = run2, canon2
     for key, detail in run.problems:
         res.violate(key, {"config": list(cfg), "history": [list(e) for e in hist]}, detail)
     sig, nt = _signature(run, hist)
@@ -644,7 +650,7 @@ def describe(tier, seed, res):
             "capture blocks are not nested; export inside an open block sees only what was flushed before",
             "canonical state = (file, record segments, thread buffer, buffer depth, LogRender._last_time, reference model); theme stack and render hooks are not touched by these events",
             "states = sum over shards (configuration x first event[s]) of distinct canonical states; core shards count only histories of the additional depth",
-            "the twin replays only the prefix's log events before the judged event (nothing else changes what a non-recording console writes later); self-checked against full lock-step replay on all histories of length <= 2 and every 64th one",
+            "the twin replays only the prefix's log events before the judged event (nothing else changes what a non-recording console writes later); every alarm, all histories of length <= 2 and every 64th one are re-run in full lock-step, whose verdict is the one reported",
         ],
         "coverage": {
             "states": c.get("states", 0),
@@ -655,6 +661,8 @@ def describe(tier, seed, res):
             "depth_bound_full_alphabet": full_d,
             "depth_bound_core_alphabet": core_d,
             "frontier_at_depth_cap": c.get("frontier_at_depth_cap", 0),
+            "lockstep_reruns": c.get("lockstep_reruns", 0),
+            "fast_path_verdict_differs": c.get("fast_path_verdict_differs", 0),
         },
     }
 
